@@ -10,6 +10,7 @@ Rules
         drop_rel has counted the references (XmlPart.drop_rel keeps a relationship that has two or more references,
         counting the one being removed); the counting rule itself is checked (`_rel_ref_count(rId) < 2`)
   R2.5  content-type <-> part-class registry: the content type a part class is constructed with maps back to that class
+  R2.7  content types: Default/Override decision is total, conflict-free and inverted by the reader (shared with C01 R1.1)
   R2.6  writer closure: content types and members are produced from the same part sequence; rels items are written for
         every part that has relationships; package rels are written
 """
@@ -55,6 +56,12 @@ def run(ctx):
     _r24(ctx, prog, M, T)
     _r25(ctx, prog, M, T)
     _r26(ctx, prog, M, T)
+    # R2.7: every part keeps exactly one resolvable content type (the Default/Override decision and its inverse lookup)
+    from checks.c01 import content_type_rules
+
+    ctx.rule("R2.7", "every part gets exactly one content-type declaration, its own, and the reader resolves it back")
+    content_type_rules(ctx, prog, prog.modules["pptx.opc.serialized"], prog.modules["pptx.opc.package"], prog.modules["pptx.opc.spec"],
+                       prog.modules["pptx.opc.oxml"], "R2.7")
 
 
 # -- R2.1 ---------------------------------------------------------------------------------------------
